@@ -343,6 +343,20 @@ def await_loop_gone(r, timeout=60.0):
         time.sleep(0.0005)
 
 
+def _idle_in_queue_get(th):
+    """The thread is blocked inside queue.Queue.get() (a frame of queue.py's get below threading.py's Condition.wait)."""
+    if th is None or th.ident is None:
+        return False
+    fr = sys._current_frames().get(th.ident)
+    if fr is None or not (fr.f_code.co_filename.endswith("threading.py") and fr.f_code.co_name == "wait"):
+        return False
+    while fr is not None:
+        if fr.f_code.co_name == "get" and fr.f_code.co_filename.endswith("queue.py"):
+            return True
+        fr = fr.f_back
+    return False
+
+
 def _in_threading(th):
     """The thread sits in a blocking primitive of threading.py (join / Event.wait): it touches no field of the
     Runnable before it is woken."""
@@ -571,8 +585,15 @@ def run_notifier(hist, threaded):
         notify(0)
         t0 = time.time()
         lt = getattr(nm, "_Runnable__thread", None)
-        while not drained.wait(0.05):
+        qq = getattr(nm, "_NotificationManager__queue", None)
+        idle = 0
+        while not drained.wait(0.01):
             if loop_gone(lt):
+                break
+            # the queue is empty and its only consumer is waiting for the next item: everything raised has had its turn
+            # (liveness detection only; if the private queue is not reachable the generous timeout below applies)
+            idle = idle + 1 if (qq is not None and qq.qsize() == 0 and _idle_in_queue_get(lt)) else 0
+            if idle >= 3:
                 break
             if time.time() - t0 > 60:
                 raise MachineryError("notification thread neither delivered the sentinel nor died within 60 s")
